@@ -26,6 +26,7 @@ type verifAuthOutcome struct {
 	features  auth.Feature
 	state     types.ObjState
 	challenge []byte
+	addErr    error // what AddRecord answers (nil = accepted)
 }
 
 type verifAuthHandler struct {
@@ -39,6 +40,9 @@ type verifAuthHandler struct {
 func (a *verifAuthHandler) Init(jsonconf json.RawMessage, name string) error { return nil }
 func (a *verifAuthHandler) IsInitialized() bool                              { return true }
 func (a *verifAuthHandler) AddRecord(rec *auth.Rec, secret []byte, remoteAddr string) (*auth.Rec, error) {
+	if a.outcome != nil && a.outcome.addErr != nil {
+		return nil, a.outcome.addErr
+	}
 	// like the real authenticators: the new record gets the scheme's level
 	rec.AuthLevel = auth.LevelAuth
 	return rec, nil
